@@ -51,6 +51,9 @@ REQUIRED = [
     "variant:no-sendmsg",
     "variant:iov-disabled",
     "variant:endpoint",
+    "variant:asyncio-adapter",
+    "variant:async-tls",
+    "variant:sync-tls",
 ]
 EXHAUSTIVE = {"quick": False, "thorough": False}
 WATCHDOG = {"quick": 900, "thorough": 7200}
@@ -223,6 +226,174 @@ def do_case(ctx, variant, chunks, script, delays, T, tag=None):
 SYNC_VARIANTS = ["sendmsg", "no-sendmsg", "iov-disabled", "endpoint"]
 
 
+# ------------------------------------------------------------------------------------------ other transports (exact bytes, termination)
+
+
+def _rand_chunks(rng: random.Random) -> list[bytes]:
+    n = rng.randint(1, 6)
+    out = []
+    for _ in range(n):
+        k = rng.choice([0, 0, 1, 3, 100, 5000, 70000])
+        out.append(bytes(rng.getrandbits(8) for _ in range(min(k, 64))) * (k // 64 + 1) if k else b"")
+        out[-1] = out[-1][:k]
+    return out
+
+
+def run_async_variant(ctx, variant: str, rng: random.Random) -> str | None:
+    import asyncio
+
+    from easynetwork.lowlevel.api_async.backend._asyncio.backend import AsyncIOBackend
+
+    from vlib import memtransport, tlspeer, vloop
+
+    seqs = [_rand_chunks(rng) for _ in range(rng.randint(1, 3))]
+    expected = b"".join(b"".join(c) for c in seqs)
+    got = bytearray()
+    st: dict = {}
+
+    async def main(loop):
+        loop.max_iterations = 300_000  # a scenario needs a few thousand iterations at most
+        backend = AsyncIOBackend()
+        if variant == "asyncio-adapter":
+            srv = socket.socket()
+            srv.setsockopt(socket.SOL_SOCKET, socket.SO_RCVBUF, 4096)
+            srv.bind(("127.0.0.1", 0))
+            srv.listen(1)
+            c = socket.socket()
+            c.setsockopt(socket.SOL_SOCKET, socket.SO_SNDBUF, 4096)
+            c.connect(srv.getsockname())
+            s, _ = srv.accept()
+            srv.close()
+            s.setblocking(False)
+            tr = await backend.wrap_stream_socket(c)
+
+            async def reader():
+                lp = asyncio.get_running_loop()
+                while True:
+                    d = await lp.sock_recv(s, rng.choice([100, 4096, 65536]))
+                    if not d:
+                        return
+                    got.extend(d)
+                    if rng.random() < 0.3:
+                        await asyncio.sleep(rng.choice([0, 0.25]))
+
+            rt = asyncio.ensure_future(reader())
+            for chunks in seqs:
+                if rng.random() < 0.5:
+                    await tr.send_all_from_iterable(iter(chunks))
+                else:
+                    for ch in chunks:
+                        await tr.send_all(ch)
+                inner = getattr(tr, "_AsyncioTransportStreamSocketAdapter__transport")
+                if inner.get_write_buffer_size() != 0:
+                    st["queued"] = inner.get_write_buffer_size()
+            await tr.aclose()
+            await asyncio.wait_for(rt, 600)
+            s.close()
+        else:
+            from easynetwork.lowlevel.api_async.transports.tls import AsyncTLSStreamTransport
+
+            a, b = memtransport.stream_pair(backend)
+            a.send_frag = rng.choice([1, 100, 4096, None]) if len(expected) < 8000 else rng.choice([1000, 4096, None])
+            a.send_yield = rng.choice([0, 1, 2])
+            a.recv_cap = rng.choice([1, 64, None]) if len(expected) < 8000 else rng.choice([512, None])
+            peer = tlspeer.AsyncPeer(b, tlspeer.server_context(rng.choice(["1.2", "1.3"])), server_side=True)
+            hs = asyncio.ensure_future(peer.handshake())
+            t = await AsyncTLSStreamTransport.wrap(a, tlspeer.client_context("1.3") if False else _client_ctx_any(), server_hostname="localhost", handshake_timeout=1e6, shutdown_timeout=1e6)
+            await hs
+            rd = asyncio.ensure_future(peer.read_until_end())
+            for chunks in seqs:
+                if rng.random() < 0.7:
+                    await t.send_all_from_iterable(iter(chunks))
+                else:
+                    for ch in chunks:
+                        await t.send_all(ch)
+            closer = asyncio.ensure_future(t.aclose())
+            await rd
+            await peer.unwrap()
+            await closer
+            got.extend(peer.plaintext_in)
+
+    st["shape"] = "trailing-empty" if any(c and not c[-1] for c in seqs) else "other-shape"
+    try:
+        vloop.run(main)
+    except vloop.Quiescent as exc:
+        return f"deadlock: {exc}"
+    except vloop.Spinning as exc:
+        return f"spin [{st['shape']}]: {exc} (chunk sizes {[[len(c) for c in s_] for s_ in seqs]})"
+    except Exception as exc:  # noqa: BLE001
+        return f"unexpected {type(exc).__name__}: {exc}"
+    if st.get("queued"):
+        return f"send returned with {st['queued']} bytes still queued in user space"
+    if bytes(got) != expected:
+        return f"peer received {len(got)} bytes, expected {len(expected)} (first difference at {next((i for i in range(min(len(got), len(expected))) if got[i] != expected[i]), min(len(got), len(expected)))})"
+    ctx.count("returned_ok")
+    return None
+
+
+def _client_ctx_any():
+    import ssl
+
+    from vlib import tlspeer
+
+    ctx = ssl.SSLContext(ssl.PROTOCOL_TLS_CLIENT)
+    ctx.load_verify_locations(tlspeer.CERT)
+    return ctx
+
+
+def run_sync_tls_variant(ctx, rng: random.Random) -> str | None:
+    import selectors as _real_selectors
+
+    from easynetwork.lowlevel.api_sync.transports.socket import SSLStreamTransport
+
+    from vlib import tlspeer
+
+    seqs = [_rand_chunks(rng) for _ in range(rng.randint(1, 3))]
+    expected = b"".join(b"".join(c) for c in seqs)
+    srv = socket.socket()
+    srv.bind(("127.0.0.1", 0))
+    srv.listen(1)
+    lsock = socket.socket()
+    lsock.connect(srv.getsockname())
+    psock, _ = srv.accept()
+    srv.close()
+    peer = tlspeer.PumpedPeer(psock, tlspeer.server_context(rng.choice(["1.2", "1.3"])), server_side=True, steps=[("handshake",), ("read",), ("unwrap",)])
+    clock = vselect.VirtualClock()
+
+    class W(vselect.World):
+        def on_select(self, fileno, event, timeout):
+            peer.pump()
+            self.clock.advance(0.001)
+            return True
+
+    world = W(clock)
+    why = None
+    try:
+        with vselect.virtual_time(clock):
+            with cpu_guard(40):
+                t = SSLStreamTransport(lsock, _client_ctx_any(), retry_interval=1.0, server_hostname="localhost", handshake_timeout=600, shutdown_timeout=5, selector_factory=vselect.selector_factory(world))
+                for chunks in seqs:
+                    t.send_all_from_iterable(iter(chunks), 600)
+                    peer.pump()
+                t.close()
+                for _ in range(4):
+                    peer.pump()
+    except (Exception, HangDetected) as exc:  # noqa: BLE001
+        why = f"unexpected {type(exc).__name__}: {exc}"
+    finally:
+        for s_ in (lsock, psock):
+            try:
+                s_.close()
+            except OSError:
+                pass
+    if why:
+        return why
+    if bytes(peer.plaintext_in) != expected:
+        return f"peer received {len(peer.plaintext_in)} bytes, expected {len(expected)}"
+    ctx.count("returned_ok")
+    return None
+
+
 def plan(tier: str, seed: int) -> list[dict]:
     shards = []
     maxc, maxs = (3, 3) if tier == "quick" else (4, 4)
@@ -231,11 +402,26 @@ def plan(tier: str, seed: int) -> list[dict]:
         for ti, T in enumerate(TIMEOUTS):
             shards.append({"seed": seed * 1000 + k, "kind": "enum", "variant": v, "timeout_idx": ti, "maxc": maxc, "maxs": maxs, "random": 300 if tier == "quick" else 6000})
             k += 1
+    for j in range(8):
+        shards.append({"seed": seed * 1000 + 100 + j, "kind": "other", "n": 15 if tier == "quick" else 400})
     return shards
 
 
 def run_shard(params: dict, ctx) -> None:
     rng = random.Random(params["seed"])
+    if params.get("kind") == "other":
+        for i in range(params["n"]):
+            for v in ("asyncio-adapter", "async-tls", "sync-tls"):
+                if ctx.should_stop(50):
+                    return
+                ctx.count(f"variant:{v}")
+                why = run_sync_tls_variant(ctx, rng) if v == "sync-tls" else run_async_variant(ctx, v, rng)
+                ctx.case(True, v, params["seed"], i)
+                if why:
+                    kind = "spin" if ("deadlock" in why or "CPU" in why or why.startswith("spin")) else "bytes" if "peer received" in why or "queued" in why else "other"
+                    shape = ":trailing-empty" if "[trailing-empty]" in why else ""
+                    ctx.violation(f"{kind}:{v}{shape}", f"[{v}] {why}", {"variant": v, "seed": params["seed"], "i": i, "other": True})
+        return
     v = params["variant"]
     T = TIMEOUTS[params["timeout_idx"]]
     seqs = [list(s) for n in range(1, params["maxc"] + 1) for s in itertools.product(PIECES, repeat=n)]
@@ -257,6 +443,9 @@ def run_shard(params: dict, ctx) -> None:
 
 
 def replay(witness: dict, ctx) -> None:
+    if witness.get("other"):
+        run_shard({"seed": witness["seed"], "kind": "other", "n": witness["i"] + 1}, ctx)
+        return
     T = math.inf if witness["timeout"] == "inf" else witness["timeout"]
     chunks = [bytes.fromhex(c) for c in witness["chunks"]]
     script = [tuple(a) if isinstance(a, list) else a for a in witness["script"]]
